@@ -405,3 +405,109 @@ func TestC16RefSelftest(t *testing.T) {
 	}
 	vlib.Selftest("ref-rfc9497", "ok")
 }
+
+// ---------------------------------------------------------------------------
+// operands unchanged: every scalar, element, big integer and byte slice handed to a prover,
+// verifier, client or server is snapshotted (marshalled / copied) before the call and
+// compared after it. A call may not write to its caller's arguments.
+
+type opSnap struct {
+	names  []string
+	before [][]byte
+	now    []func() []byte
+}
+
+func (s *opSnap) add(name string, f func() []byte) *opSnap {
+	s.names = append(s.names, name)
+	s.before = append(s.before, append([]byte{}, f()...))
+	s.now = append(s.now, f)
+	return s
+}
+
+func (s *opSnap) scalar(name string, x group.Scalar) *opSnap {
+	if x == nil {
+		return s
+	}
+	return s.add(name, func() []byte { return serS(x) })
+}
+
+func (s *opSnap) elem(name string, e group.Element) *opSnap {
+	if e == nil {
+		return s
+	}
+	return s.add(name, func() []byte { return ser(e) })
+}
+
+func (s *opSnap) elems(name string, es []group.Element) *opSnap {
+	for i, e := range es {
+		s.elem(fmt.Sprintf("%s[%d]", name, i), e)
+	}
+	return s
+}
+
+func (s *opSnap) scalars(name string, xs []group.Scalar) *opSnap {
+	for i, x := range xs {
+		s.scalar(fmt.Sprintf("%s[%d]", name, i), x)
+	}
+	return s
+}
+
+func (s *opSnap) bytes(name string, b []byte) *opSnap {
+	return s.add(name, func() []byte { return b })
+}
+
+func (s *opSnap) bytesList(name string, bs [][]byte) *opSnap {
+	for i := range bs {
+		s.bytes(fmt.Sprintf("%s[%d]", name, i), bs[i])
+	}
+	return s
+}
+
+func (s *opSnap) big(name string, v *big.Int) *opSnap {
+	if v == nil {
+		return s
+	}
+	return s.add(name, func() []byte { return []byte(v.Text(16)) })
+}
+
+// changed returns a description of the first operand whose value differs from its snapshot.
+func (s *opSnap) changed() string {
+	for i, f := range s.now {
+		if got := f(); string(got) != string(s.before[i]) {
+			return fmt.Sprintf("%s: %x before the call, %x after", s.names[i], s.before[i], got)
+		}
+	}
+	return ""
+}
+
+// checkOperands reports a changed operand under key; true means all operands are unchanged.
+func checkOperands(t vlib.TB, s *opSnap, key, what string) bool {
+	if d := s.changed(); d != "" {
+		vlib.Report(t, key, what+": the call changed its caller's operand "+d)
+		return false
+	}
+	return true
+}
+
+// operandViolations collects operand changes seen inside the verify wrappers (which have no
+// access to the test object); every case function reports them through reportOperands in a
+// deferred call. Cases run one at a time (vlib.Check serialises rapid).
+var operandViolations []string
+
+func noteOperands(s *opSnap, call string) {
+	if d := s.changed(); d != "" {
+		operandViolations = append(operandViolations, call+": the call changed its caller's operand "+d)
+	}
+}
+
+// reportOperands is deferred by the case functions: defer reportOperands(t, key, desc).
+func reportOperands(t vlib.TB, key string) {
+	v := operandViolations
+	operandViolations = nil
+	if r := recover(); r != nil {
+		panic(r) // the case already failed: keep that failure
+	}
+	if len(v) > 0 {
+		vlib.Report(t, key, v[0])
+	}
+}
